@@ -98,6 +98,7 @@ type c10Env struct {
 	def   interface{}
 
 	lastAnnounced bool // set by applyEvents: a create event arrived while the client did not hold the resource
+	initDone      bool // the one Init of this environment's store has been made
 }
 
 // c10Project is the value transformation of the transformers: it hides the
@@ -544,8 +545,61 @@ func c10Run(c *core.Ctx, b core.Batch) {
 }
 
 // history: a client holds the resource over a sequence of mutations.
+// initOverExisting: Store.Init with a seed for an id that already holds another value
+// (and one fresh id). The existing value is kept, so nothing may be published for it.
+func (e *c10Env) initOverExisting(r *rand.Rand) bool {
+	bs, ok := e.st.(*badgerstore.Store)
+	if !ok || e.initDone {
+		return true
+	}
+	e.initDone = true
+	c := e.c
+	storeID, rid := e.ids("initx")
+	own := c10RandValue(r, e.cfg, false)
+	if err := e.mutate(storeID, nil, own); err != nil {
+		c.Inconclusive("setup failed: " + err.Error())
+		return false
+	}
+	cache, found, ok := e.get(rid)
+	if !ok {
+		return false
+	}
+	pos := e.rig.C.Len()
+	seed := c10RandValue(r, e.cfg, false)
+	freshID, _ := e.ids("inity")
+	err := bs.Init(func(add func(id string, v interface{})) error {
+		add(storeID, seed)
+		add(freshID, seed)
+		return nil
+	})
+	c.Eval(1)
+	c.Obs("init_over_existing_value", 1)
+	desc := map[string]interface{}{"config": e.cfg, "rid": rid, "stored": own, "seed_for_the_same_id": seed, "init_error": fmt.Sprint(err)}
+	var evs []string
+	for _, m := range e.rig.C.Since(pos) {
+		if strings.HasPrefix(m.Subject, "event."+rid+".") {
+			evs = append(evs, strings.TrimPrefix(m.Subject, "event."+rid+".")+":"+short(m.Payload, 100))
+		}
+	}
+	fresh, ffound, ok := e.get(rid)
+	if !ok {
+		return false
+	}
+	sigCfg := fmt.Sprintf("%s/%s/default=%v", e.cfg.Type, e.cfg.Trans, e.cfg.Default)
+	if found == ffound && canon(cache) == canon(fresh) && len(evs) > 0 {
+		desc["events"] = evs
+		c.Violation("C10/event-without-served-change:init:"+sigCfg, fmt.Sprintf("Init skipped the already stored %s (a fresh get is unchanged) but published %v for it", rid, evs), desc)
+	}
+	e.mutate(storeID, own, nil)
+	e.mutate(freshID, seed, nil)
+	return true
+}
+
 func (e *c10Env) history(r *rand.Rand, name string) bool {
 	c := e.c
+	if !e.initOverExisting(r) {
+		return false
+	}
 	storeID, rid := e.ids(name)
 	var cur interface{}
 	cache, found, ok := e.get(rid)
